@@ -11,21 +11,21 @@ import (
 )
 
 type SpecEnv struct {
-	fr    *Frame
-	vc    *VC
-	heap  *Heap
-	old   *Heap
-	block *ssa.BasicBlock
-	idx   int
-	bound map[string]*Val
-	names map[string]*Val
-	pkg   string
-	inOld bool
-	entryParams bool // parameter names denote entry values (requires/ensures)
-	held  map[string]bool // mutexes held at the evaluation point (nil: assume context)
-	qvars map[string]bool // SMT names of quantifier variables in scope
-	pats  []Term          // candidate triggers: (select a v) with v a quantifier variable
-	errs  []string
+	fr          *Frame
+	vc          *VC
+	heap        *Heap
+	old         *Heap
+	block       *ssa.BasicBlock
+	idx         int
+	bound       map[string]*Val
+	names       map[string]*Val
+	pkg         string
+	inOld       bool
+	entryParams bool            // parameter names denote entry values (requires/ensures)
+	held        map[string]bool // mutexes held at the evaluation point (nil: assume context)
+	qvars       map[string]bool // SMT names of quantifier variables in scope
+	pats        []Term          // candidate triggers: (select a v) with v a quantifier variable
+	errs        []string
 }
 
 type specErr string
@@ -477,7 +477,8 @@ func (env *SpecEnv) field(v *Val, idx int) *Val {
 		r := vc.loadPtr(p, h)
 		env.wfRef(r, h)
 		// values held in the heap satisfy their type's invariant (integer range, string/slice shape)
-		if r.Typ != nil && r.T != "" {
+		// (a term that mentions a bound quantifier variable cannot be asserted at top level)
+		if r.Typ != nil && r.T != "" && !env.mentionsQvar(r.T) {
 			if rf := vc.rangeFact(r.T, r.Typ, 0); rf != "true" && len(rf) < 4000 {
 				vc.S.Assert(rf)
 			}
@@ -850,6 +851,16 @@ func (vc *VC) hint(t Term, sortS string) {
 	fn := "hint_" + mangle(sortS)
 	vc.S.DeclareRaw("fn:"+fn, "(declare-fun "+fn+" ("+sortS+") Bool)")
 	vc.S.Assert("(" + fn + " " + t + ")")
+}
+
+// mentionsQvar reports whether term t refers to a quantifier variable currently in scope.
+func (env *SpecEnv) mentionsQvar(t Term) bool {
+	for v := range env.qvars {
+		if strings.Contains(string(t), v) {
+			return true
+		}
+	}
+	return false
 }
 
 // wfRef: references read from the heap are nil or allocated (well-formed heap).
